@@ -117,7 +117,7 @@ size_t varintPFORSize(const varintPFORMeta *meta) {
 
     /* Exceptions: each is (index, value) pair */
     for (uint32_t i = 0; i < meta->exceptionCount; i++) {
-        size += varintTaggedLen(i);          /* worst case index */
+        size += varintTaggedLen(UINT32_MAX); /* worst case index */
         size += varintTaggedLen(UINT64_MAX); /* worst case value */
     }
 
